@@ -12,9 +12,6 @@ pub open spec fn tsum(t: Seq<(SortedIds, F64)>, n: int, m: Map<u64, F64>) -> rea
 pub open spec fn chunk_val(c: real, ch: Seq<(u64, usize)>, k: int, m: Map<u64, F64>) -> real decreases k {
     if k <= 0 { c } else { chunk_val(c, ch, k - 1, m) * rpow(sval(m, ch[k - 1].0), ch[k - 1].1 as nat) }
 }
-pub open spec fn small_degree(f: v1::Function) -> bool {
-    match f.function { Some(v1::function::Function::Polynomial(p)) => forall|i: int| 0 <= i < p.terms.len() ==> (#[trigger] p.terms[i]).ids.len() < 256, _ => true }
-}
 pub proof fn lemma_chunk_scale(c: real, ch: Seq<(u64, usize)>, k: int, m: Map<u64, F64>)
     requires 0 <= k <= ch.len()
     ensures chunk_val(c, ch, k, m) == c * chunk_val(1real, ch, k, m)
